@@ -10,7 +10,8 @@ EXPLANATION = ("R05.1 OpenPosition success paths establish leverage >= decimals 
                "ratio of that (vamm, trader) is queried and established >= config.maintenance_margin_ratio; R05.3 WithdrawMargin: "
                "bad-debt guard, signed free-collateral guard on (free - amount), payout = msg.amount to info.sender, stored margin = "
                "remain-margin(position, -amount).margin; R05.4 DepositMargin: stored margin = margin + msg.amount, the same amount is "
-               "pulled (cw20) / asserted as sent (native). R05.5 the free-collateral formula min(margin, margin + pnl) - notional * initial_margin_ratio / decimals; R05.6 the margin it starts from is net of the funding owed since the checkpoint; R05.7 the increase reply credits and collects record.open_notional * decimals / record.leverage and the record holds msg.leverage, msg.margin_amount * msg.leverage / decimals.")
+               "pulled (cw20) / asserted as sent (native). R05.5 the free-collateral formula min(margin, margin + pnl) - notional * initial_margin_ratio / decimals; R05.6 the margin it starts from is net of the funding owed since the checkpoint; R05.7 the increase reply credits and collects record.open_notional * decimals / record.leverage and the record holds msg.leverage, msg.margin_amount * msg.leverage / decimals."
+               " R05.8 every reply path that stores a position advances its funding checkpoint; R05.9 the stored direction follows the sign of the stored size (R02.5, evaluated in a C02 context).")
 NOT_DECIDED = "that the margin-ratio and free-collateral formulas are right beyond the operand selection checked in C06 (R06.3)."
 
 
